@@ -176,7 +176,7 @@ Proof.
     rewrite EA.
     assert (Hf : filter (agree [] []) (box wf (k0 :: ax)) = box wf (k0 :: ax)).
     { clear. induction (box wf (k0 :: ax)); cbn; congruence. }
-    rewrite Hf. destruct (map (s_sem se) (box wf (k0 :: ax))); reflexivity.
+    rewrite Hf. cbn [negb andb]. destruct (map (s_sem se) (box wf (k0 :: ax))); reflexivity.
 Qed.
 
 (* a consumer job holding index i into this node's final state list *)
@@ -191,33 +191,31 @@ Proof.
   assert (Hindf : m_indf s = box_idx (lens (s_faxes se))).
   { rewrite (so_indf _ _ _ _ _ SO), HF, andb_false_r. reflexivity. }
   rewrite (eo_out _ _ _ _ _ EO). cbn [get_value].
-  rewrite (so_jobs _ _ _ _ _ SO), (so_comb _ _ _ _ _ SO).
+  rewrite (so_jobs _ _ _ _ _ SO), (so_comb _ _ _ _ _ SO), Hindf.
   destruct (is_nil (n_comb nd)) eqn:EC.
   - (* no combiner: faxes = axes *)
-    apply is_nil_true in EC. pose proof (eo_comb_nil_faxes EC) as EF. cbn [negb].
+    apply is_nil_true in EC. pose proof (eo_comb_nil_faxes EC) as EF. cbn [negb andb].
     rewrite EF in *. rewrite <- box_length in Hi.
     destruct (map (s_sem se) (box wf (s_axes se))) as [|v vs] eqn:EM.
     + exfalso. apply (f_equal (@List.length val)) in EM. rewrite map_length in EM. cbn in EM. lia.
-    + cbn [is_nil]. rewrite <- EM. rewrite (nth_error_nth' _ (s_sem se [])) by (rewrite map_length; exact Hi).
+    + cbn [is_nil andb]. rewrite <- EM. rewrite (nth_error_nth' _ (s_sem se [])) by (rewrite map_length; exact Hi).
       f_equal. apply (map_nth (s_sem se)).
   - cbn [negb].
-    destruct (map (s_sem se) (box wf (s_axes se))) as [|v vs] eqn:EM.
-    + cbn [is_nil]. destruct (box wf (s_axes se)); [reflexivity | discriminate EM].
-    + cbn [is_nil]. rewrite Hindf.
-      destruct (box_idx (lens (s_faxes se))) as [|t0 ts] eqn:EB; [cbn in Hi; lia|]. cbn [is_nil].
-      unfold group_values. rewrite (so_sindf _ _ _ _ _ SO), Hindf.
-      rewrite (nth_error_nth' _ (mkdict (s_faxes se) [])) by (rewrite map_length; exact Hi).
-      rewrite (map_nth (mkdict (s_faxes se))).
-      rewrite (so_sind _ _ _ _ _ SO), (so_jobs _ _ _ _ _ SO).
-      rewrite mkdict_nodup by exact eo_faxes_nodup.
-      rewrite box_nth by (rewrite EB; exact Hi). rewrite EB.
-      set (t := nth i (t0 :: ts) []).
-      assert (Ht : List.length (s_faxes se) = List.length t).
-      { symmetry. rewrite <- (lens_length (s_faxes se)). apply box_idx_elem_length. rewrite EB. apply nth_In. exact Hi. }
-      f_equal. f_equal.
-      clear EM. induction (box wf (s_axes se)) as [|r rs IH]; [reflexivity|].
-      cbn [map combine filter fst snd]. rewrite (subrow_agree _ _ _ eo_faxes_nodup Ht).
-      destruct (agree (s_faxes se) (combine (s_faxes se) t) r); cbn [map snd]; rewrite IH; reflexivity.
+    destruct (box_idx (lens (s_faxes se))) as [|t0 ts] eqn:EB; [cbn in Hi; lia|]. cbn [is_nil negb andb].
+    rewrite andb_false_r. cbn [is_nil].
+    unfold group_values. rewrite (so_sindf _ _ _ _ _ SO), Hindf.
+    rewrite (nth_error_nth' _ (mkdict (s_faxes se) [])) by (rewrite map_length; exact Hi).
+    rewrite (map_nth (mkdict (s_faxes se))).
+    rewrite (so_sind _ _ _ _ _ SO), (so_jobs _ _ _ _ _ SO).
+    rewrite mkdict_nodup by exact eo_faxes_nodup.
+    rewrite box_nth by (rewrite EB; exact Hi). rewrite EB.
+    set (t := nth i (t0 :: ts) []).
+    assert (Ht : List.length (s_faxes se) = List.length t).
+    { symmetry. rewrite <- (lens_length (s_faxes se)). apply box_idx_elem_length. rewrite EB. apply nth_In. exact Hi. }
+    f_equal. f_equal.
+    induction (box wf (s_axes se)) as [|r rs IH]; [reflexivity|].
+    cbn [map combine filter fst snd]. rewrite (subrow_agree _ _ _ eo_faxes_nodup Ht).
+    destruct (agree (s_faxes se) (combine (s_faxes se) t) r); cbn [map snd]; rewrite IH; reflexivity.
 Qed.
 
 Lemma map_nth_seq {A} (l : list A) d : map (fun i => nth i l d) (seq 0 (List.length l)) = l.
@@ -227,9 +225,9 @@ Proof.
 Qed.
 
 (* the workflow output of the node: _get_value(state_index=None) *)
-Lemma get_value_output : empty_comb_ok wf se nd = true -> get_value me None = Some (spec_output wf se).
+Lemma get_value_output : get_value me None = Some (spec_output wf se).
 Proof.
-  intros HE. unfold spec_output.
+  unfold spec_output.
   destruct (is_nil (s_faxes se)) eqn:HF.
   - apply is_nil_true in HF. apply get_value_none_closed. exact HF.
   - assert (HF' : s_faxes se <> []) by (apply is_nil_false; exact HF).
@@ -238,30 +236,29 @@ Proof.
     destruct (eo_state _ _ _ _ _ EO HA) as [s [Eme SO]]. rewrite Eme.
     assert (Hindf : m_indf s = box_idx (lens (s_faxes se))).
     { rewrite (so_indf _ _ _ _ _ SO), HF, andb_false_r. reflexivity. }
-    cbn [get_value]. rewrite (so_jobs _ _ _ _ _ SO), (so_comb _ _ _ _ _ SO).
-    destruct (box wf (s_axes se)) as [|r0 rs] eqn:EBA.
-    + (* no job at all *)
-      cbn [map is_nil]. f_equal. f_equal.
-      destruct (is_nil (n_comb nd)) eqn:EC.
-      * apply is_nil_true in EC. rewrite (eo_comb_nil_faxes EC), EBA. reflexivity.
-      * unfold empty_comb_ok in HE. rewrite EC, EBA, HF in HE. cbn in HE.
-        destruct (box wf (s_faxes se)); [reflexivity | discriminate HE].
-    + assert (HJ : is_nil (map (s_sem se) (r0 :: rs)) = false) by reflexivity. rewrite HJ. clear HJ. rewrite <- EBA.
-      destruct (is_nil (n_comb nd)) eqn:EC; cbn [negb].
-      * pose proof EC as EC'. apply is_nil_true in EC'. rewrite (eo_comb_nil_faxes EC'). f_equal. f_equal.
-        apply map_ext. intros r. rewrite (eo_out _ _ _ _ _ EO), EC. reflexivity.
-      * rewrite Hindf.
-        assert (HNE : box_idx (lens (s_faxes se)) <> []).
-        { intros E. apply box_idx_empty_iff in E. apply (lens_sub_zero _ _ eo_faxes_incl) in E.
-          apply box_empty_iff in E. rewrite E in EBA. discriminate EBA. }
-        apply is_nil_false in HNE. rewrite HNE.
+    cbn [get_value]. rewrite (so_jobs _ _ _ _ _ SO), (so_comb _ _ _ _ _ SO), Hindf.
+    destruct (is_nil (n_comb nd)) eqn:EC; cbn [negb andb].
+    + (* no combiner *)
+      pose proof EC as EC'. apply is_nil_true in EC'. rewrite (eo_comb_nil_faxes EC').
+      assert (EM : map (s_out se) (box wf (s_axes se)) = map (s_sem se) (box wf (s_axes se))).
+      { apply map_ext. intros r. rewrite (eo_out _ _ _ _ _ EO), EC. reflexivity. }
+      rewrite EM. rewrite andb_true_r. destruct (map (s_sem se) (box wf (s_axes se))); reflexivity.
+    + destruct (box_idx (lens (s_faxes se))) as [|t0 ts] eqn:EB.
+      * (* no remaining coordinate at all: then no job either *)
+        cbn [is_nil negb andb]. rewrite andb_true_r.
+        assert (EBA : box wf (s_axes se) = []).
+        { apply box_empty_iff. apply (lens_sub_zero _ _ eo_faxes_incl). apply box_idx_empty_iff. exact EB. }
+        rewrite EBA. cbn [map is_nil]. f_equal. f_equal.
+        assert (EBF : box wf (s_faxes se) = []) by (apply box_empty_iff, box_idx_empty_iff; exact EB).
+        rewrite EBF. reflexivity.
+      * cbn [is_nil negb andb]. rewrite andb_false_r. rewrite <- EB.
         rewrite (all_some_map _ (fun i => s_out se (nth i (box wf (s_faxes se)) []))).
         -- cbn [option_map]. f_equal. f_equal. rewrite <- box_length.
            rewrite <- (map_map (fun i => nth i (box wf (s_faxes se)) []) (s_out se)). rewrite map_nth_seq. reflexivity.
         -- intros i Hi. apply in_seq in Hi.
            pose proof (get_value_some i HF' ltac:(lia)) as G. rewrite Eme in G. cbn [get_value] in G.
-           rewrite (so_jobs _ _ _ _ _ SO), (so_comb _ _ _ _ _ SO), EBA in G. cbn [map is_nil] in G.
-           rewrite EC in G. cbn [negb] in G. rewrite Hindf, HNE in G. exact G.
+           rewrite (so_jobs _ _ _ _ _ SO), (so_comb _ _ _ _ _ SO), Hindf, EC in G. cbn [negb andb is_nil] in G.
+           rewrite andb_false_r in G. exact G.
 Qed.
 End Entry.
 
